@@ -606,7 +606,50 @@ func registerReflectModel(e *Engine) {
 		return nil
 	})
 	vm("Len", func(st *State, v *RVal, a []Value) Value {
-		return st.E.intTerm(big.NewInt(0), types.Typ[types.Int])
+		n := 0
+		switch p := st.rpayload(v).(type) {
+		case *SliceV:
+			n = p.Len
+		case *ArrayV:
+			n = len(p.E)
+		case *Term:
+			if p.Sort == SString {
+				return st.fromMathInt(st.strLen(p), types.Typ[types.Int])
+			}
+		}
+		return st.E.intTerm(big.NewInt(int64(n)), types.Typ[types.Int])
+	})
+	vm("Index", func(st *State, v *RVal, a []Value) Value {
+		i := st.concreteInt(a[0], "reflect index")
+		switch p := st.rpayload(v).(type) {
+		case *SliceV:
+			if i < 0 || i >= p.Len {
+				st.rpanic("reflect: slice index out of range")
+			}
+			et := v.Typ.Elem
+			if et == nil {
+				st.unsupported("Index on a slice without element type")
+			}
+			return &RVal{Kind: et.Kind, Typ: et, Ref: &PtrV{Obj: p.Obj, Path: []int{p.Off + i}}}
+		case *ArrayV:
+			if i < 0 || i >= len(p.E) {
+				st.rpanic("reflect: array index out of range")
+			}
+			var et *RType
+			if at, ok := v.Typ.GoType.Underlying().(*types.Array); ok {
+				et = st.E.rtypeOfGo(at.Elem())
+			}
+			if et == nil {
+				st.unsupported("Index on an array without element type")
+			}
+			if v.Ref != nil {
+				np := append(append([]int(nil), v.Ref.Path...), i)
+				return &RVal{Kind: et.Kind, Typ: et, Ref: &PtrV{Obj: v.Ref.Obj, Path: np}}
+			}
+			return &RVal{Kind: et.Kind, Typ: et, Val: p.E[i]}
+		}
+		st.unsupported("reflect.Value.Index on %s", rkNames[v.Kind])
+		return nil
 	})
 	vm("Addr", func(st *State, v *RVal, a []Value) Value {
 		if v.Ref == nil {
